@@ -113,7 +113,8 @@ impl Gen {
                 let amount = boundary_amount(rng, o.min_stake(), headroom.min(self.profile.max_amount));
                 let mint_to: Option<String> = match rng.below(10) {
                     0 | 1 => Some(rng.pick(&sc.users).clone()),
-                    2 | 3 => Some(rng.pick(&sc.native_users).clone()),
+                    // (now and then in the all-upper-case spelling bech32 allows)
+                    2 | 3 => Some(if rng.chance(1, 8) { rng.pick(&sc.native_users).to_uppercase() } else { rng.pick(&sc.native_users).clone() }),
                     // the staker itself as native recipient: one receiver then has transfers in both denoms
                     4 => Some(if rng.chance(1, 3) { o.staker() } else { rng.pick(&sc.native_users).clone() }),
                     5 if contract_sender => None,
@@ -430,6 +431,9 @@ impl Gen {
                 if rng.chance(1, 2) {
                     vec![Op::exec(&sc.admin, &sc.q, json!({"add_validator": {"new_validator": v}}), vec![])]
                 } else {
+                    // any listed validator may go, the last one included
+                    let listed: Vec<String> = o.cfg.get("native_chain_config").and_then(|n| n.get("validators")).and_then(|x| x.as_array()).map(|a| a.iter().filter_map(|x| x.as_str().map(|s| s.to_string())).collect()).unwrap_or_default();
+                    let v = if !listed.is_empty() && rng.chance(2, 3) { rng.pick(&listed).clone() } else { v };
                     vec![Op::exec(&sc.admin, &sc.q, json!({"remove_validator": {"validator": v}}), vec![])]
                 }
             }
